@@ -110,6 +110,10 @@ impl Monitor for M {
             (Ok(None), Some(_)) => ctx.violation("load.must_succeed", &format!("files={}", layout.files.len()), || detail("loading failed although every reference resolves".into())),
             (Ok(Some(g)), Some(e)) => {
                 let mut ok = true;
+                if let Some(place) = invalid_string_in_model(&g) {
+                    ok = false;
+                    ctx.violation("model.strings_valid_utf8", &place, || detail(format!("a string of the returned model is not valid UTF-8: {}", place)));
+                }
                 // the returned maps, re-keyed by plain strings / tuples: the comparison must not depend
                 // on the crate's own Eq / Hash of its key type
                 let g_frames: std::collections::BTreeMap<String, &dlt_core::fibex::FrameMetadata> = g.frame_map.iter().map(|(k, v)| (k.clone(), v)).collect();
@@ -346,10 +350,11 @@ impl Monitor for M {
 
     fn describe(&self, ctx: &Ctx) -> J {
         super::describe(
-            "abstract models: 0-12 frames (ids ID_<n> incl. n > 2^31 and non-numeric ids, 1/5 duplicates of an earlier id with different content, 5/6 with manufacturer extension whose four fields are each present 5/6), 0-30 PDUs (1/7 duplicate ids, optional description, 0-6 signal instances with distinct non-contiguous shuffled sequence numbers), signal refs over all S_* names incl. S_FLOA16, S_RAW/S_RAWD, unknown names, and custom signals -> codings -> all A_* base types incl. the A_INT*/A_SINT* synonyms, unknown base types and signals without coding; 1/12 models with a dangling PDU reference. Layouts: 1-4 files with names in no particular order (1 in 10 path lists names a file twice), elements grouped by kind in random order or fully shuffled, random child order inside PDU/FRAME/instances, namespace styles fx:/ho:, none, a:/b:, mixed, prefixed attributes, both <X-REF/> and <X-REF></X-REF>, optional container elements, comments, CRLF/no whitespace, texts with XML escapes and numeric character references, unrelated ECU manufacturer extensions and PROJECT elements. Application / context ids from pools with equal concatenations, trailing blanks and ids longer than 4 bytes sharing their first 4 bytes. Every 4th model is followed by a history on the same paths: the files are rewritten with a same-length variant (two sequence numbers swapped), their modification times restored, and loaded again. Lookups by frame id, by (context, app, frame id), with foreign / swapped / 4-byte-truncated ids and unknown ids. distinct = (#files, grouped?, duplicate frames?, duplicate PDUs?, dangling?, signal vocabulary used, #frames, #PDUs buckets); non-trivial = the model has a frame or PDU",
+            "abstract models: 0-12 frames (ids ID_<n> incl. n > 2^31 and non-numeric ids, 1/5 duplicates of an earlier id with different content, 5/6 with manufacturer extension whose four fields are each present 5/6), 0-30 PDUs (1/7 duplicate ids, optional description, 0-6 signal instances with distinct non-contiguous shuffled sequence numbers), signal refs over all S_* names incl. S_FLOA16, S_RAW/S_RAWD, unknown names, and custom signals -> codings -> all A_* base types incl. the A_INT*/A_SINT* synonyms, unsupported base types (open positions, see assumptions), signals without coding, signals whose CODING-REF names a SIGNAL id (chains and cycles), sequence numbers up to usize::MAX in 1 of 24 lists; 1/12 models with a dangling PDU reference. Layouts: 1-4 files with names in no particular order (1 in 10 path lists names a file twice), elements grouped by kind in random order or fully shuffled, random child order inside PDU/FRAME/instances, namespace styles fx:/ho:, none, a:/b:, mixed, prefixed attributes, both <X-REF/> and <X-REF></X-REF>, optional container elements, comments, CRLF/no whitespace, texts with XML escapes and numeric character references, unrelated ECU manufacturer extensions and PROJECT elements. Application / context ids from pools with equal concatenations, trailing blanks and ids longer than 4 bytes sharing their first 4 bytes. Every 4th model is followed by a history on the same paths: the files are rewritten with a same-length variant (two sequence numbers swapped), their modification times restored, and loaded again. Lookups by frame id, by (context, app, frame id), with foreign / swapped / 4-byte-truncated ids and unknown ids. distinct = (#files, grouped?, duplicate frames?, duplicate PDUs?, dangling?, signal vocabulary used, #frames, #PDUs buckets); non-trivial = the model has a frame or PDU",
             &[
                 "documents stay inside what the format defines: distinct sequence numbers per parent, non-empty text in mandatory text elements, CODING-REF as an empty element, unique signal and coding ids (the statement fixes 'first wins' only for frames and PDUs)",
                 "an empty DESC element means no description",
+                "references whose name exists in FIBEX but lies outside the vocabulary the loader supports (S_FLOA16; codings with base type A_BYTEFIELD / A_BITFIELD) are open positions: skipped or mapped to one type, both are accepted (the statement quantifies over the supported vocabulary); references to signals or codings that do not exist, and SIGNAL -> SIGNAL reference chains and cycles that never reach a coding, must be skipped",
             ],
             &[("ok.model_equal", super::scaled(ctx, 10000)), ("ok.model_equal.multi_file", super::scaled(ctx, 5000)), ("ok.model_equal.with_duplicates", super::scaled(ctx, 2000)), ("ok.dangling_pdu_ref_refused", super::scaled(ctx, 500)), ("ok.lookup_by_id", super::scaled(ctx, 10000)), ("ok.lookup_by_key", super::scaled(ctx, 10000)), ("vocab.S_BOOL", 50), ("vocab.S_FLOA16", 50), ("vocab.S_RAW", 50), ("vocab.S_RAWD", 50), ("vocab.S_STRG_UTF8", 50), ("vocab.A_INT8", 50), ("vocab.A_SINT64", 50), ("vocab.A_UNICODE2STRING", 50), ("vocab.A_FLOAT64", 50), ("vocab.A_BYTEFIELD", 50)],
         )
